@@ -17,9 +17,7 @@ import (
 	"github.com/gotid/god/lib/timex"
 	"google.golang.org/grpc/balancer"
 	"google.golang.org/grpc/balancer/base"
-	"google.golang.org/grpc/codes"
 	"google.golang.org/grpc/resolver"
-	"google.golang.org/grpc/status"
 )
 
 // Histories over several pickers built by ONE picker builder (the registered one is a process-wide object shared
@@ -187,15 +185,7 @@ func verifMulti(raw json.RawMessage) any {
 				st.WBits = math.Float64bits(math.Exp(float64(-td) / float64(decayTime)))
 			}
 			st.Code = op.Code
-			var err error
-			switch {
-			case op.Code == -1:
-			case op.Code == -2:
-				err = errors.New("plain")
-			default:
-				err = status.Error(codes.Code(op.Code), "verif")
-			}
-			l.dones[op.K](balancer.DoneInfo{Err: err, BytesSent: op.Flags&1 != 0, BytesReceived: op.Flags&2 != 0})
+			l.dones[op.K](balancer.DoneInfo{Err: verifError(op.Code, op.Msg), BytesSent: op.Flags&1 != 0, BytesReceived: op.Flags&2 != 0})
 		default:
 			return map[string]any{"error": "unknown op " + op.Op}
 		}
